@@ -745,3 +745,304 @@ var extraAnchors = []string{
 	"main.FSM.sessionExpirationDur", "main.FSM.sessionExpirationMu", "main.FSM.ircstore", "main.FSM.store", "main.FSM.lastSnapshotState",
 	"main.FSM.skipDeletionForCanary", "main.FSM.restoreMu",
 }
+
+// errorDiscipline checks, for every error value a call hands to a local variable in fi:
+//
+//	(E1) on every path the first thing that happens to the variable is a look at it (a nil test, another comparison,
+//	     handing it on in a return or a call) — not a redefinition and not the end of the function ("dropped");
+//	(E2) the variable is not returned as the function's result where the dominating tests say it is nil and none says
+//	     it is not ("return err" on the success edge: the caller is told all is well although the work was not done).
+//
+// Both are contradiction rules in Engler's sense: the code that obtains an error value believes it can be non-nil.
+// It returns the number of error definitions inspected.
+func (c *Ctx) errorDiscipline(rule string, fi *load.FuncInfo, detail string) int {
+	r := c.R
+	info := fi.Info()
+	g := c.Graph(fi)
+	errT := types.Universe.Lookup("error").Type()
+	n := 0
+	seenObj := map[types.Object]bool{}
+	for _, v := range g.Nodes() {
+		as, ok := v.Node.(*ast.AssignStmt)
+		if !ok || len(as.Rhs) != 1 {
+			continue
+		}
+		call, ok := ast.Unparen(as.Rhs[0]).(*ast.CallExpr)
+		if !ok {
+			continue
+		}
+		for _, l := range as.Lhs {
+			id, ok := l.(*ast.Ident)
+			if !ok || id.Name == "_" {
+				continue
+			}
+			obj := astx.Obj(info, id)
+			if obj == nil || !types.Identical(obj.Type(), errT) {
+				continue
+			}
+			n++
+			seenObj[obj] = true
+			callee := astx.Str(call.Fun)
+			// E1
+			mentions := func(x int) bool { return x != v.ID && g.V[x].Node != nil && astx.Mentions(info, g.V[x].Node, obj) }
+			reach := g.Reach(v.ID, mentions, nil)
+			dropped := ""
+			if reach[g.Exit] {
+				dropped = "the function can end"
+			}
+			for u := range g.V {
+				if !reach[u] {
+					continue
+				}
+				for _, e := range g.V[u].Succ {
+					w := e.To
+					if !mentions(w) {
+						continue
+					}
+					if as2, ok := g.V[w].Node.(*ast.AssignStmt); ok {
+						inL, inR := false, false
+						for _, l2 := range as2.Lhs {
+							if id2, ok := l2.(*ast.Ident); ok && astx.Obj(info, id2) == obj {
+								inL = true
+							}
+						}
+						for _, r2 := range as2.Rhs {
+							if astx.Mentions(info, r2, obj) {
+								inR = true
+							}
+						}
+						if inL && !inR {
+							dropped = "it is overwritten at " + c.P.Pos(as2.Pos())
+						}
+					}
+				}
+			}
+			r.Check(dropped == "", rule, fi.Name(), "error of "+callee+" is looked at on every path", c.P.Pos(call.Pos()), "first mention on every path is a test, a return or a use",
+				"the error returned by "+callee+" is dropped on some path ("+dropped+" without the error having been examined): "+detail)
+		}
+	}
+	// E2
+	defVs := map[types.Object][]int{}
+	for _, v := range g.Nodes() {
+		if as, ok := v.Node.(*ast.AssignStmt); ok {
+			for _, l := range as.Lhs {
+				if id, ok := l.(*ast.Ident); ok {
+					if o := astx.Obj(info, id); o != nil && seenObj[o] {
+						defVs[o] = append(defVs[o], v.ID)
+					}
+				}
+			}
+		}
+	}
+	for _, rv := range g.Returns() {
+		rs := rv.Node.(*ast.ReturnStmt)
+		done := map[types.Object]bool{}
+		for _, res := range rs.Results {
+			ast.Inspect(res, func(nd ast.Node) bool {
+				if _, isLit := nd.(*ast.FuncLit); isLit {
+					return false
+				}
+				id, ok := nd.(*ast.Ident)
+				if !ok {
+					return true
+				}
+				obj := astx.Obj(info, id)
+				if obj == nil || !seenObj[obj] || done[obj] {
+					return true
+				}
+				done[obj] = true
+				sawNil, sawNonNil, unhandled := false, false, false
+				for _, v := range g.V {
+					if len(v.Succ) != 2 || v.Succ[0].Cond == nil || v.Succ[0].To == v.Succ[1].To {
+						continue
+					}
+					for k, e := range v.Succ {
+						if e.Tag != nil || !g.EdgeDominates(e, rv.ID) {
+							continue
+						}
+						// stale: the variable is redefined between this edge and the return
+						stale := false
+						fromE := g.Reach(e.To, nil, nil)
+						for _, d := range defVs[obj] {
+							if (fromE[d] || d == e.To) && g.Reach(d, nil, nil)[rv.ID] {
+								stale = true
+							}
+						}
+						if stale {
+							continue
+						}
+						for _, f := range cfgx.ExpandCond(e.Cond, e.Val) {
+							x, isNil, ok := nilCompare(info, f)
+							if !ok {
+								continue
+							}
+							if xid, ok := ast.Unparen(x).(*ast.Ident); ok && astx.Obj(info, xid) == obj {
+								if isNil {
+									sawNil = true
+									// is the other edge of this test — the one on which the error is set — dealt with? It is when
+									// every path from it ends in a return that mentions the variable, or in a no-return call.
+									// (`if err != nil { return nil, err }; …; return x, err` hands back a nil err harmlessly.)
+									sib := v.Succ[1-k]
+									handledRet := func(x int) bool {
+										rs2, ok := g.V[x].Node.(*ast.ReturnStmt)
+										return ok && astx.Mentions(info, rs2, obj)
+									}
+									if !handledRet(sib.To) && g.Reach(sib.To, handledRet, nil)[g.Exit] {
+										unhandled = true
+									}
+								} else {
+									sawNonNil = true
+								}
+							}
+						}
+					}
+				}
+				r.Check(!(sawNil && !sawNonNil && unhandled), rule, fi.Name(), "an error variable is handed back only where it can be non-nil", c.P.Pos(rs.Pos()), "no current dominating test says it is nil",
+					"the return statement hands back (or reports) "+id.Name+" on the edge where the dominating test established "+id.Name+" == nil: the function reports success — or a failure with a nil cause — at the point where it was meant to report the failure, and continues with the failed result on the other edge: "+detail)
+				return true
+			})
+		}
+	}
+	return n
+}
+
+// iteratorDiscipline: LevelDB iterators are only read where they are positioned on an entry.
+//   (i)   the boolean result of First/Last/Next/Prev/Seek is not discarded;
+//   (ii)  on the edge where that result is false (directly, negated, or through a flag that is only ever assigned such
+//         results) no Key()/Value() is reachable before the iterator is positioned again;
+//   (iii) every Key()/Value() has a positioning call on every path from the function entry (iterators received as a
+//         parameter or from a call of another function of the module are the caller's business and are skipped).
+// Returns the number of positioning calls inspected.
+func (c *Ctx) iteratorDiscipline(rule string, fi *load.FuncInfo) int {
+	r := c.R
+	info := fi.Info()
+	g := c.Graph(fi)
+	iterCall := func(call *ast.CallExpr, names ...string) bool {
+		se, ok := ast.Unparen(call.Fun).(*ast.SelectorExpr)
+		if !ok {
+			return false
+		}
+		fn := astx.Callee(info, call)
+		if fn == nil || fn.Pkg() == nil || !strings.HasSuffix(fn.Pkg().Path(), "goleveldb/leveldb/iterator") {
+			return false
+		}
+		for _, nm := range names {
+			if se.Sel.Name == nm {
+				return true
+			}
+		}
+		return false
+	}
+	posNames := []string{"First", "Last", "Next", "Prev", "Seek"}
+	hasCall := func(n ast.Node, names ...string) *ast.CallExpr {
+		if n == nil {
+			return nil
+		}
+		for _, call := range astx.Calls(n, false) {
+			if iterCall(call, names...) {
+				return call
+			}
+		}
+		return nil
+	}
+	isPos := func(x int) bool { return hasCall(g.V[x].Node, posNames...) != nil }
+	nPos := 0
+	for _, v := range g.Nodes() {
+		call := hasCall(v.Node, posNames...)
+		if call == nil {
+			continue
+		}
+		nPos++
+		if es, ok := v.Node.(*ast.ExprStmt); ok && ast.Unparen(es.X) == ast.Expr(call) {
+			r.Fail(rule, fi.Name(), "the result of positioning the iterator is looked at", c.P.Pos(call.Pos()),
+				"the boolean result of "+astx.Str(call.Fun)+" is discarded: whether the iterator stands on an entry is unknown at the following Key()/Value()")
+		}
+	}
+	if nPos == 0 {
+		return 0
+	}
+	flagOfPos := func(e ast.Expr) bool {
+		switch x := ast.Unparen(e).(type) {
+		case *ast.CallExpr:
+			return iterCall(x, posNames...) || iterCall(x, "Valid")
+		case *ast.Ident:
+			obj := astx.Obj(info, x)
+			if obj == nil {
+				return false
+			}
+			defs := defsOf(info, fi.Node(), obj)
+			if len(defs) == 0 {
+				return false
+			}
+			for _, d := range defs {
+				if d == nil {
+					return false
+				}
+				call, ok := ast.Unparen(d).(*ast.CallExpr)
+				if !ok || !iterCall(call, posNames...) {
+					return false
+				}
+			}
+			return true
+		}
+		return false
+	}
+	// (ii)
+	for _, v := range g.V {
+		for _, e := range v.Succ {
+			if e.Cond == nil {
+				continue
+			}
+			exhausted := false
+			for _, cl := range c.clausesOf(info, fi.Node(), e.Cond, e.Val, 0) {
+				if len(cl) == 1 && !cl[0].Pos && flagOfPos(cl[0].E) {
+					exhausted = true
+				}
+			}
+			if !exhausted {
+				continue
+			}
+			reach := g.Reach(e.To, isPos, nil)
+			bad := token.NoPos
+			for x := range g.V {
+				if (reach[x] || x == e.To) && !isPos(x) {
+					if call := hasCall(g.V[x].Node, "Key", "Value"); call != nil {
+						bad = call.Pos()
+					}
+				}
+			}
+			pos := e.Cond.Pos()
+			if bad.IsValid() {
+				pos = bad
+			}
+			r.Check(!bad.IsValid(), rule, fi.Name(), "an exhausted iterator is not read", c.P.Pos(pos), "no Key()/Value() reachable from the edge where the positioning call returned false",
+				"Key()/Value() is evaluated on a path where the last positioning call reported that there is no entry (an empty database, or the end of the key space): the nil key is taken for a log key — the first/last index is garbage or the conversion fails and the store does not open")
+		}
+	}
+	// (iii)
+	for _, v := range g.Nodes() {
+		call := hasCall(v.Node, "Key", "Value")
+		if call == nil || isPos(v.ID) {
+			continue
+		}
+		se := ast.Unparen(call.Fun).(*ast.SelectorExpr)
+		id, ok := ast.Unparen(se.X).(*ast.Ident)
+		if !ok {
+			continue
+		}
+		local := false
+		for _, d := range defsOf(info, fi.Node(), astx.Obj(info, id)) {
+			if dc, ok := ast.Unparen(d).(*ast.CallExpr); d != nil && ok {
+				if fn := astx.Callee(info, dc); fn != nil && fn.Pkg() != nil && strings.Contains(fn.Pkg().Path(), "goleveldb") {
+					local = true
+				}
+			}
+		}
+		if !local {
+			continue
+		}
+		r.Check(g.DominatedBy(v.ID, func(x *cfgx.Vertex) bool { return isPos(x.ID) }), rule, fi.Name(), "the iterator is positioned before it is read", c.P.Pos(call.Pos()), "First/Last/Next/Prev/Seek on every path from the entry",
+			"Key()/Value() is evaluated on an iterator that was never positioned on some path: it yields nil")
+	}
+	return nPos
+}
